@@ -297,13 +297,17 @@ Proof.
   destruct H as [Hl Hc]. unfold K, zlen in Hc. cbv zeta. set (a := Z.of_N _).
   destruct (Z.eqb_spec a 0) as [|Ha]; [discriminate|].
   unfold go_pad_p. destruct (Z.eqb_spec a 0) as [|_]; [contradiction|].
-  destruct (seek_tensors a _ ts) as [e|] eqn:Es; [|discriminate].
-  intro Hd. inversion Hd; subst d. cbn [d_end].
-  apply seek_tensors_forward in Es.
-  - lia.
-  - unfold a in *. pose proof (N.mod_lt (kv_uint val_u32 ((k_param_count, VNum 10 (total_params ts)) :: kv0) k_alignment 32) two32 ltac:(discriminate)).
-    unfold two32 in *. lia.
-  - lia.
+  set (pos := (base + Z.of_nat (length bytes - length rest))%Z).
+  assert (Ha32 : (0 < a <= Z.of_N two32)%Z).
+  { unfold a in *. pose proof (N.mod_lt (kv_uint val_u32 ((k_param_count, VNum 10 (total_params ts)) :: kv0) k_alignment 32) two32 ltac:(discriminate)).
+    unfold two32 in *. lia. }
+  assert (Hpos : (base + 16 <= pos < Z.of_N two63)%Z) by (unfold pos; lia).
+  clearbody pos a. clear Hl Hc Hlen. clearbody ma.
+  destruct (seek_tensors a pos ts) as [e|] eqn:Es; [|discriminate].
+  intro Hd.
+  assert (Ee : e = d_end d) by exact (f_equal (fun r => match r with DOk x _ => d_end x | _ => 0%Z end) Hd).
+  rewrite <- Ee. clear Hd Ee.
+  apply seek_tensors_forward in Es; [lia | exact Ha32 | lia].
 Qed.
 
 Corollary decode_ok_or_error bytes maxArr :
@@ -325,7 +329,9 @@ Theorem accessors_total base bytes maxArr d al :
 Proof.
   unfold decode_from. destruct (rd_header _ bytes) as [[[ver kv0] ts] rest al0 | |]; [|discriminate|discriminate].
   cbv zeta. destruct (_ =? 0)%Z; [discriminate|]. destruct (go_pad_p _ _); [|discriminate].
-  destruct (seek_tensors _ _ ts); [|discriminate]. intro H. inversion H; subst d. cbn [d_kv].
+  destruct (seek_tensors _ _ ts); [|discriminate]. intro H.
+  assert (Ek : (k_param_count, VNum 10 (total_params ts)) :: kv0 = d_kv d) by exact (f_equal (fun r => match r with DOk x _ => d_kv x | _ => [] end) H).
+  rewrite <- Ek. clear H Ek.
   unfold accessors_ok, r_architecture, r_kind, r_chat_template, r_file_type, r_parameter_count.
   rewrite !key_value_ok_default.
   assert (E4 : is_ok (match key_value val_u32 ((k_param_count, VNum 10 (total_params ts)) :: kv0) k_file_type [0] with
@@ -355,10 +361,17 @@ Proof.
   { unfold a in *. pose proof (N.mod_lt (kv_uint val_u32 ((k_param_count, VNum 10 (total_params ts)) :: kv0) k_alignment 32) two32 ltac:(discriminate)).
     unfold two32 in *. lia. }
   assert (Hpos : (0 <= pos < Z.of_N two63)%Z) by (unfold pos; lia).
+  clearbody pos a. clear Hl Hc Hlen Hb.
   destruct (seek_tensors a pos ts) as [e|] eqn:Es; [|discriminate].
-  intro Hd. inversion Hd; subst d. cbn [d_end d_toff d_tensors]. intro Hne.
+  intro Hd.
+  assert (Ee : e = d_end d) by exact (f_equal (fun r => match r with DOk x _ => d_end x | _ => 0%Z end) Hd).
+  assert (Et : ts = d_tensors d) by exact (f_equal (fun r => match r with DOk x _ => d_tensors x | _ => [] end) Hd).
+  assert (Eo : wrap64 (Z.to_N ((pos + go_pad pos a) mod Z.of_N two64)) = d_toff d) by exact (f_equal (fun r => match r with DOk x _ => d_toff x | _ => 0 end) Hd).
+  rewrite <- Ee, <- Et, <- Eo. clear Hd Ee Et Eo. intro Hne.
   destruct ts as [|t r]; [contradiction|]. cbn [seek_tensors] in Es. cbv zeta in Es.
-  pose proof (go_pad_nonneg pos a ltac:(lia) ltac:(lia)) as Hpad.
+  assert (Hp0 : (0 <= pos)%Z) by (destruct Hpos; assumption). assert (Ha0 : (0 < a)%Z) by (destruct Ha32; assumption).
+  clearbody ma.
+  pose proof (go_pad_nonneg pos a Hp0 Ha0) as Hpad.
   assert (Hpadlt : (go_pad pos a < a)%Z).
   { unfold go_pad. rewrite (Z.rem_mod_nonneg pos a) by lia. pose proof (Z.mod_pos_bound pos a ltac:(lia)).
     rewrite Z.rem_mod_nonneg by lia. apply Z.mod_pos_bound. lia. }
@@ -376,4 +389,34 @@ Proof.
   rewrite Z.mod_small by (unfold two32, two63, two64 in *; lia).
   rewrite wrap64_small by (unfold two32, two63, two64 in *; lia).
   rewrite Z2N.id by lia. lia.
+Qed.
+
+(** ** array accessors (load path): not total on decoded KVs; total when the array was collected and its elements have the asserted type *)
+Definition array_accessors_total_full : Prop :=
+  forall base bytes maxArr d al key, decode_from base bytes maxArr = DOk d al -> is_ok (r_strings (d_kv d) key) = true.
+
+(** witness: one key/value tokenizer.ggml.tokens = int32 array [1] *)
+Definition wit_tokens_i32 : list N :=
+  [71;71;85;70; 3;0;0;0; 0;0;0;0;0;0;0;0; 1;0;0;0;0;0;0;0; 21;0;0;0;0;0;0;0] ++ k_tokens ++ [9;0;0;0; 5;0;0;0; 1;0;0;0;0;0;0;0; 1;0;0;0].
+
+Lemma array_accessors_total_refuted : ~ array_accessors_total_full.
+Proof.
+  intro H. destruct (decode_from 0 wit_tokens_i32 0) as [d al| |] eqn:E; [|vm_compute in E; discriminate|vm_compute in E; discriminate].
+  specialize (H 0%Z wit_tokens_i32 0%Z d al k_tokens E). vm_compute in E. inversion E; subst d. vm_compute in H. discriminate.
+Qed.
+
+Definition collected_typed {T} (proj : val -> option T) (m : kvs) (key : str) : Prop :=
+  match kv_get (key_for m key) m with
+  | Some (VArr n (Some vs)) => Forall (fun v => proj v <> None) vs
+  | Some (VArr n None) => n = 0
+  | _ => True
+  end.
+
+Lemma arr_elems_partial {T} (proj : val -> option T) m key : collected_typed proj m key -> is_ok (arr_elems proj m key) = true.
+Proof.
+  unfold collected_typed, arr_elems. destruct (kv_get (key_for m key) m) as [[| |n [vs|]]|]; try reflexivity.
+  - induction 1 as [|v r Hv _ IH]; [reflexivity|]. destruct (proj v); [|contradiction].
+    destruct ((fix go (l : list val) : ares (list T) := match l with [] => AOk [] | v0 :: r0 => match proj v0 with None => APanic PAssert
+              | Some x => match go r0 with AOk xs => AOk (x :: xs) | APanic p => APanic p end end end) r); [reflexivity | discriminate].
+  - intros ->. reflexivity.
 Qed.
